@@ -1,5 +1,5 @@
 (** extraction of the C16 allocator model (ExtrOcamlBasic only) *)
 From Coq Require Import Extraction ExtrOcamlBasic.
-From Celer Require Import C16.Allocator.
+From Celer Require Import C16.Allocator C16.StepStack.
 Extraction Language OCaml.
-Extraction "c16model.ml" run_alloc.
+Extraction "c16model.ml" run_alloc run_steps.
